@@ -218,6 +218,17 @@ def run(ctx) -> None:
     ctx.check(rolls, 'R2', f'{wrapper.name}: rollback before re-raise', wrapper.node,
               'every exceptional path of the wrapper calls rollback() before raising',
               'the write wrapper can re-raise without rollback()', construct='wrapper', func=wrapper.qualname)
+    # a rollback discards *all* pending statements of the caller's transaction: afterwards the wrapper may only raise
+    gw = cfgmod.CFG(wrapper.node)
+    rbs = [n for n in gw.nodes if any((dotted(c.func) or '').endswith('.rollback') for c in flow.node_calls(n))]
+    carries_on = [n for n in rbs if gw.exit in gw.reachable([n], include_starts=False) or
+                  any(any(isinstance(c.func, ast.Attribute) and c.func.attr == 'execute' for c in flow.node_calls(m))
+                      for m in gw.reachable([n], include_starts=False))]
+    ctx.check(not carries_on, 'R2', f'{wrapper.name}: nothing but a raise follows rollback()', wrapper.node,
+              'every path from rollback() ends in a raise',
+              'after rollback() the wrapper can return normally or execute again (a retry): the rollback has already discarded the '
+              "caller's earlier pending writes, so the call then commits and acknowledges an update of which only the last statements exist",
+              construct='wrapper:continues-after-rollback', func=wrapper.qualname)
   else:
     ctx.info('no rollback wrapper in SQLDataStore: every write is a direct execute and R2 is decided on the '
              'exception edges of each method')
